@@ -179,7 +179,7 @@ fn stress(rng: &mut crate::ctx::Rng, n_logs: u32, ending: u64, in_call: bool) ->
         let mut s = vec![op::movi(RP, 0), op::add(RP, RP, RegId::IS), op::addi(0x19, RP, OFF_CALL), op::addi(0x1a, RP, OFF_ASSET), op::not(0x1c, RegId::ZERO),
             op::call(0x19, RegId::ZERO, 0x1a, 0x1c), op::log(RegId::ONE, RegId::ONE, RegId::ZERO, RegId::ZERO), op::ret(RegId::ONE)];
         s[0] = op::movi(RP, 0);
-        scn.contracts = vec![Ctr { id: contract_id(0), code: finish(c), balances: vec![], as_input: true }];
+        scn.contracts = vec![Ctr { id: contract_id(0), code: finish(c), balances: vec![], as_input: true, tail: 0 }];
         scn.script = finish(s);
     } else {
         let mut s = body.clone(); end(&mut s);
